@@ -53,6 +53,12 @@ Proof.
   - apply IH; auto. intros y Hy. apply Hd. now right.
 Qed.
 
+Lemma filter_all_true {A} (f : A -> bool) l : (forall x, In x l -> f x = true) -> filter f l = l.
+Proof.
+  induction l as [|a l IH]; intro H; [reflexivity|]. simpl. rewrite (H a (or_introl eq_refl)).
+  f_equal. apply IH. intros x Hx. apply H. now right.
+Qed.
+
 Lemma ref_eqb_eq a b : ref_eqb a b = true <-> a = b.
 Proof.
   destruct a, b; simpl; try rewrite Nat.eqb_eq; split; intro H; try discriminate; try congruence.
@@ -122,21 +128,22 @@ Inductive Chain (bl : list nat) : nat -> nat -> Prop :=
 | C_step r m s : In r bl -> subject r = Some m -> Chain bl m s -> Chain bl r s.
 
 Lemma walk_spec bl g : forall fuel cur, cur < fuel ->
-  exists b, walk subject bl g fuel cur = Some b /\
-            (b = true <-> exists s, Chain bl cur s /\ In s g).
+  exists b, walk subject manifest true bl g fuel cur = Some b /\
+            (b = true <-> exists s, Chain bl cur s /\ In s g /\ manifest s = true).
 Proof.
   induction fuel as [|f IH]; intros cur Hlt; [lia|]. simpl.
   destruct (memb cur bl) eqn:Eb.
   - apply memb_In in Eb. destruct (subject cur) as [s|] eqn:Es.
-    + destruct (memb s g) eqn:Eg.
+    + cbn [negb orb]. destruct (memb s g && manifest s) eqn:Eg.
       * exists true. split; [reflexivity|]. split; [|reflexivity]. intros _.
-        exists s. split; [now apply C_one|now apply memb_In].
+        apply andb_true_iff in Eg as [Eg Em].
+        exists s. split; [now apply C_one|split; [now apply memb_In|assumption]].
       * pose proof (subj_lt _ _ Es) as Hs.
         destruct (IH s ltac:(lia)) as (b & Hw & Hb). exists b. split; [assumption|].
         rewrite Hb. split.
         -- intros (s' & Hc & Hg). exists s'. split; [eapply C_step; eauto|assumption].
-        -- intros (s' & Hc & Hg). inversion Hc; subst.
-           ++ assert (s' = s) by congruence. subst. apply memb_false in Eg. contradiction.
+        -- intros (s' & Hc & Hg & Hm). inversion Hc; subst.
+           ++ assert (s' = s) by congruence. subst. apply memb_In in Hg. rewrite Hg, Hm in Eg. discriminate.
            ++ assert (m = s) by congruence. subst. eauto.
     + exists false. split; [reflexivity|]. split; [discriminate|].
       intros (s' & Hc & _). inversion Hc; congruence.
@@ -173,7 +180,8 @@ Let ix := idx st.
    a live node, what is reachable from r *)
 Inductive Live : nat -> Prop :=
 | L_tag t n x : In (RTag t, n) ix -> Reach bl n x -> Live x
-| L_ref d r s x : In (RDig d, r) ix -> Chain bl r s -> Live s -> Reach bl r x -> Live x.
+| L_ref d r s x : In (RDig d, r) ix -> Chain bl r s -> Live s -> manifest s = true ->
+                  Reach bl r x -> Live x.
 
 Lemma Live_in x : Live x -> In x bl.
 Proof. destruct 1; eapply Reach_in; eauto. Qed.
@@ -212,9 +220,9 @@ Proof.
 Qed.
 
 Lemma do_walk_fixed g n :
-  exists b, do_walk subject cfg_fixed bl g n = Some b /\
-            (b = true <-> exists s, Chain bl n s /\ In s g).
-Proof. unfold do_walk. cbn [fixF1 cfg_fixed]. apply walk_spec. lia. Qed.
+  exists b, do_walk subject manifest cfg_fixed bl g n = Some b /\
+            (b = true <-> exists s, Chain bl n s /\ In s g /\ manifest s = true).
+Proof. unfold do_walk. cbn [fixF1 fixSubjM cfg_fixed]. apply walk_spec. lia. Qed.
 
 (* one step of a pass *)
 Lemma keep_step_spec g kept ch n :
@@ -224,7 +232,7 @@ Lemma keep_step_spec g kept ch n :
     GInv g' kept' /\
     (forall x, In x g -> In x g') /\
     ((ch' = ch /\ g' = g /\ kept' = kept /\
-      (In n kept \/ ~ exists s, Chain bl n s /\ In s g)) \/
+      (In n kept \/ ~ exists s, Chain bl n s /\ In s g /\ manifest s = true)) \/
      (ch' = true /\ length kept' = S (length kept))).
 Proof.
   intros I Hc. unfold keep_step. destruct (memb n kept) eqn:Ek.
@@ -233,13 +241,13 @@ Proof.
   - apply memb_false in Ek. destruct (do_walk_fixed g n) as (b & Hw & Hb). rewrite Hw.
     destruct b.
     + exists (closure succ bl n ++ g), (n :: kept), true. split; [reflexivity|].
-      destruct Hb as [Hb _]. destruct (Hb eq_refl) as (s & Hch & Hs).
+      destruct Hb as [Hb _]. destruct (Hb eq_refl) as (s & Hch & Hs & Hms).
       assert (Hnb : In n bl) by (inversion Hch; assumption).
       apply candidates_In in Hc as Hc'. destruct Hc' as ((d & Hd) & _).
       split; [|split; [intros; apply in_or_app; now right|right; split; reflexivity]].
       constructor.
       * intros x Hx. apply in_app_or in Hx as [Hx|Hx]; [|now apply (gi_sound _ _ I)].
-        apply closure_spec in Hx. eapply L_ref; eauto. now apply (gi_sound _ _ I).
+        apply closure_spec in Hx. eapply (L_ref d n s x); eauto. now apply (gi_sound _ _ I).
       * intros x s' Hx Hs' Hb'. apply in_or_app. apply in_app_or in Hx as [Hx|Hx].
         -- left. apply closure_spec. apply closure_spec in Hx. eapply Reach_snoc; eauto.
         -- right. eapply (gi_closed _ _ I); eauto.
@@ -260,7 +268,7 @@ Lemma pass_spec : forall l g kept ch,
     fold_left (keep_step succ subject manifest cfg_fixed bl) l (g, kept, ch, false) = (g', kept', ch', false) /\
     GInv g' kept' /\
     ((ch' = ch /\ g' = g /\ kept' = kept /\
-      forall n, In n l -> In n kept \/ ~ exists s, Chain bl n s /\ In s g) \/
+      forall n, In n l -> In n kept \/ ~ exists s, Chain bl n s /\ In s g /\ manifest s = true) \/
      (ch' = true /\ length kept < length kept')).
 Proof.
   induction l as [|n l IH]; intros g kept ch I Hl.
@@ -288,7 +296,7 @@ Lemma gc_passes_spec : forall fuel i g kept,
   exists g' kept',
     gc_passes succ subject manifest cfg_fixed bl ords fuel i g kept = Some (g', kept') /\
     GInv g' kept' /\
-    forall n, In n (candidates ix) -> In n kept' \/ ~ exists s, Chain bl n s /\ In s g'.
+    forall n, In n (candidates ix) -> In n kept' \/ ~ exists s, Chain bl n s /\ In s g' /\ manifest s = true.
 Proof.
   induction fuel as [|f IH]; intros i g kept I Hf.
   - pose proof (kept_bound _ _ I). lia.
@@ -311,7 +319,7 @@ Proof.
     as (g & kept & Hp & I & Hfin).
   rewrite Hp. eexists _, g. split; [reflexivity|]. split.
   - intro x. split; [apply (gi_sound _ _ I)|].
-    intro HL. induction HL as [t n x Ht Hr|d r s x Hd Hc _ IHs Hr].
+    intro HL. induction HL as [t n x Ht Hr|d r s x Hd Hc _ IHs Hms Hr].
     + eapply closed_reach; [apply (gi_closed _ _ I)|exact Hr|].
       eapply (gi_roots _ _ I); eauto. eapply Reach_start; eauto.
     + eapply closed_reach; [apply (gi_closed _ _ I)|exact Hr|].
@@ -360,7 +368,7 @@ Proof.
     + now apply (gi_kept _ _ I).
     + assumption.
   - intros x Hx. apply (gi_sound _ _ I) in Hx.
-    induction Hx as [t n x Ht Hr|d r s x Hd Hc _ IHs Hr].
+    induction Hx as [t n x Ht Hr|d r s x Hd Hc _ IHs Hms Hr].
     + exists (RTag t, n). split; [|exact Hr]. apply in_or_app. left. apply filter_In. split; [assumption|reflexivity].
     + destruct (in_dec Nat.eq_dec r (tagged_nodes ix)) as [Ht|Ht].
       * apply tagged_nodes_In in Ht as (t & Ht). exists (RTag t, r). split; [|exact Hr].
@@ -461,14 +469,38 @@ Proof.
   - apply memb_false in E. simpl. tauto.
 Qed.
 
+Lemma del_idx_In st n e :
+  In e (del_idx succ manifest st n) <->
+  (In e (idx st) /\ snd e <> n) \/
+  (exists d, e = (RDig d, d) /\ In d (danglings succ (gnodes st) n) /\ manifest d = true /\
+             lookup (RDig d) (filter (fun e => negb (snd e =? n)) (idx st)) = None).
+Proof.
+  unfold del_idx. rewrite in_app_iff, in_map_iff, filter_In, negb_true_iff, Nat.eqb_neq. split.
+  - intros [(d & <- & Hd)|H]; [right|left; exact H]. apply filter_In in Hd as [Hd Hc].
+    apply andb_true_iff in Hc as [Hm Hl]. exists d. repeat split; try assumption.
+    destruct (lookup (RDig d) _); [discriminate|reflexivity].
+  - intros [H|(d & -> & Hd & Hm & Hl)]; [right; exact H|left]. exists d. split; [reflexivity|].
+    apply filter_In. split; [assumption|]. rewrite Hm, Hl. reflexivity.
+Qed.
+
+Lemma remove_one_In x y l : In y (remove_one x l) -> In y l.
+Proof.
+  induction l as [|a l IH]; simpl; [tauto|]. destruct (Nat.eqb a x); [now right|].
+  intros [H|H]; [now left|right; now apply IH].
+Qed.
+
+Lemma entries_succ p r : In r (entries succ subject p) -> In r (succ p).
+Proof. unfold entries. destruct (subject p); [apply remove_one_In|tauto]. Qed.
+
 Section Delete.
 Variable st0 : state.
 Variable x : nat.
 Let G := gnodes st0.
 Let B := blobs st0.
 
-(* p holds r: p lists r other than as its subject (a referrer does not keep its subject) *)
-Definition holds (p r : nat) : Prop := In r (succ p) /\ subject p <> Some r.
+(* p holds r: r is an entry of p (manifests, layers, config, blobs), not merely its subject
+   (a referrer does not keep its subject alive) *)
+Definition holds (p r : nat) : Prop := In r (entries succ subject p).
 
 (* the set Delete(x) removes when AutoGC is on: least set containing x, closed under
    "untagged manifest of the store whose subject (a manifest) was removed and whose holders
@@ -495,13 +527,20 @@ Definition waiting (proc : list nat) (r : nat) : Prop :=
   In r G /\ is_tagged st0 r = false /\
   exists m, In m proc /\ manifest m = true /\ subject r = Some m.
 
+(* the reference map during the cascade: the entries of the start state whose target is not
+   processed, plus by-digest entries of manifests that lost their last predecessor *)
+Definition idx_rel (ix : list (ref * nat)) (proc : list nat) : Prop :=
+  (forall e, In e ix -> ~ In (snd e) proc /\
+             (In e (idx st0) \/ exists d, e = (RDig d, d) /\ manifest d = true)) /\
+  (forall e, In e (idx st0) -> ~ In (snd e) proc -> In e ix).
+
 Record DInv (st : state) (queue seen proc pending : list nat) : Prop := {
   di_seen : seen = proc ++ queue;
   di_nodup : NoDup seen;
   di_x : In x seen;
   di_g : forall y, In y (gnodes st) <-> In y G /\ ~ In y proc;
   di_b : forall y, In y (blobs st) <-> In y B /\ ~ In y proc;
-  di_i : forall e, In e (idx st) <-> In e (idx st0) /\ ~ In (snd e) proc;
+  di_i : idx_rel (idx st) proc;
   di_a : autogc st = true;
   di_s : strays st = strays st0;
   di_sound : forall y, In y seen -> Gone y;
@@ -515,15 +554,14 @@ Record DInv (st : state) (queue seen proc pending : list nat) : Prop := {
                       (forall p, In p G -> In d (succ p) -> In p proc) -> In d seen }.
 
 Lemma tagged_same st proc y :
-  (forall e, In e (idx st) <-> In e (idx st0) /\ ~ In (snd e) proc) ->
-  ~ In y proc -> is_tagged st y = is_tagged st0 y.
+  idx_rel (idx st) proc -> ~ In y proc -> is_tagged st y = is_tagged st0 y.
 Proof.
-  intros Hi Hy. apply eq_true_iff_eq. rewrite !is_tagged_spec.
+  intros [H1 H2] Hy. apply eq_true_iff_eq. rewrite !is_tagged_spec.
   split; intros (t & [H|H]); exists t.
-  - left. now apply Hi in H.
-  - right. now apply Hi in H.
-  - left. apply Hi. split; [assumption|exact Hy].
-  - right. apply Hi. split; [assumption|exact Hy].
+  - left. destruct (H1 _ H) as [_ [Ho|(d & E & _)]]; [assumption|discriminate].
+  - right. destruct (H1 _ H) as [_ [Ho|(d & E & _)]]; [assumption|discriminate].
+  - left. apply H2; assumption.
+  - right. apply H2; assumption.
 Qed.
 
 Lemma seen_bound seen : NoDup seen -> (forall y, In y seen -> y = x \/ In y G) ->
@@ -541,16 +579,13 @@ Qed.
 
 (* Store.heldBySurvivor *)
 Lemma held_spec g seen r :
-  held succ subject g seen r = true <-> exists p, In p g /\ holds p r /\ ~ In p seen.
+  held succ subject true g seen r = true <-> exists p, In p g /\ holds p r /\ ~ In p seen.
 Proof.
-  unfold held. rewrite existsb_exists. split.
+  unfold held, holds. rewrite existsb_exists. split.
   - intros (p & Hp & H). apply preds_In in Hp as [Hg Hs]. apply andb_true_iff in H as [H1 H2].
-    apply negb_true_iff in H1, H2. apply memb_false in H1. exists p. repeat split; try assumption.
-    intro E. apply has_subject_spec in E. congruence.
-  - intros (p & Hg & [Hs Hn] & Hq). exists p. split; [apply preds_In; tauto|].
-    apply andb_true_iff. split; apply negb_true_iff.
-    + now apply memb_false.
-    + destruct (has_subject subject r p) eqn:E; [|reflexivity]. apply has_subject_spec in E. contradiction.
+    apply negb_true_iff in H1. apply memb_false in H1. apply memb_In in H2. eauto.
+  - intros (p & Hg & Hh & Hq). exists p. split; [apply preds_In; split; [assumption|now apply entries_succ]|].
+    apply andb_true_iff. split; [apply negb_true_iff; now apply memb_false|now apply memb_In].
 Qed.
 
 Lemma delete_loop_spec : forall fuel k st queue seen proc pending,
@@ -578,9 +613,9 @@ Proof.
       assert (Hh_b : memb h (blobs st) = true).
       { apply memb_In. apply (di_b _ _ _ _ _ I). split; assumption. }
       cbn [delete_loop]. unfold delete_one. rewrite Hh_b. rewrite (di_a _ _ _ _ _ I).
-      cbn [andb fixF3 fixF4 fixLeaf skipLinked fixHold cfg_fixed negb orb app].
+      cbn [andb fixF3 fixF4 fixLeaf skipLinked fixHold fixEntry cfg_fixed negb orb app].
       set (st' := {| blobs := removeb h (blobs st);
-                     idx := filter (fun e => negb (snd e =? h)) (idx st);
+                     idx := del_idx succ manifest st h;
                      gnodes := removeb h (gnodes st);
                      strays := strays st; autogc := true |}).
       set (refs := if manifest h
@@ -591,8 +626,8 @@ Proof.
       set (fresh := dedup (filter (fun y => negb (memb y seen)) (ord k dang'))).
       set (seen1 := seen ++ fresh).
       set (cand := dedup (filter (fun r => negb (memb r seen1)) (pending ++ ord k refs))).
-      set (ready := filter (fun r => negb (held succ subject (gnodes st') seen1 r)) cand).
-      set (rest := filter (held succ subject (gnodes st') seen1) cand).
+      set (ready := filter (fun r => negb (held succ subject true (gnodes st') seen1 r)) cand).
+      set (rest := filter (held succ subject true (gnodes st') seen1) cand).
       assert (Hg' : forall y, In y (gnodes st') <-> In y G /\ ~ In y (proc ++ [h])).
       { intro y. unfold st'. cbn [gnodes]. rewrite removeb_In, (di_g _ _ _ _ _ I), in_app_iff.
         simpl. split.
@@ -601,12 +636,17 @@ Proof.
       assert (Hfresh : forall y, In y fresh <-> In y dang' /\ ~ In y seen).
       { intro y. unfold fresh. rewrite dedup_In, filter_In, ord_perm.
         rewrite negb_true_iff, memb_false. tauto. }
-      assert (Hidx' : forall e, In e (idx st') <-> In e (idx st0) /\ ~ In (snd e) (proc ++ [h])).
-      { intro e. unfold st'. cbn [idx]. rewrite filter_In, negb_true_iff, Nat.eqb_neq.
-        rewrite (di_i _ _ _ _ _ I), in_app_iff. simpl. split.
-        - intros [[H1 H2] H3]. split; [assumption|]. intros [H|[H|[]]]; [now apply H2|]. congruence.
-        - intros [H1 H2]. split; [split; [assumption|]|]; intro H; apply H2; [now left|].
-          right. left. congruence. }
+      assert (Hidx' : idx_rel (idx st') (proc ++ [h])).
+      { destruct (di_i _ _ _ _ _ I) as [Hi1 Hi2]. unfold st'. cbn [idx]. split.
+        - intros e He. apply del_idx_In in He as [[He Hne]|(d & -> & Hd & Hm & _)].
+          + destruct (Hi1 e He) as [Hp Ho]. split; [|exact Ho].
+            rewrite in_app_iff. simpl. intros [H|[H|[]]]; [contradiction|congruence].
+          + apply danglings_In in Hd as (_ & Hs & Hg & _). apply (di_g _ _ _ _ _ I) in Hg.
+            apply succ_lt in Hs. split; [|right; eauto].
+            rewrite in_app_iff. simpl. intros [H|[H|[]]]; [tauto|lia].
+        - intros e He Hp. apply del_idx_In. left. rewrite in_app_iff in Hp. simpl in Hp. split.
+          + apply Hi2; [assumption|]. intro H. apply Hp. now left.
+          + intro H. apply Hp. right. left. congruence. }
       assert (Hrefs : forall r, In r refs <->
                 manifest h = true /\ In r (gnodes st) /\ subject r = Some h /\ is_tagged st0 r = false).
       { intro r. unfold refs. destruct (manifest h).
@@ -647,7 +687,7 @@ Proof.
                 In r cand /\ ~ exists p, In p (gnodes st') /\ holds p r /\ ~ In p seen1).
       { intro r. unfold ready. rewrite filter_In, negb_true_iff. split; intros [Hc Hh]; (split; [assumption|]).
         - intro E. apply held_spec in E. congruence.
-        - destruct (held succ subject (gnodes st') seen1 r) eqn:E; [|reflexivity].
+        - destruct (held succ subject true (gnodes st') seen1 r) eqn:E; [|reflexivity].
           apply held_spec in E. contradiction. }
       assert (Hrest : forall r, In r rest <->
                 In r cand /\ exists p, In p (gnodes st') /\ holds p r /\ ~ In p seen1).
@@ -707,7 +747,7 @@ Proof.
             - apply in_or_app. right. apply ord_perm. apply Hrefs. repeat split; try assumption.
               apply (di_g _ _ _ _ _ I). split; [assumption|]. intro Hp. apply Hrs. apply Hproc1.
               apply in_or_app. now left. }
-          destruct (held succ subject (gnodes st') seen1 r) eqn:E.
+          destruct (held succ subject true (gnodes st') seen1 r) eqn:E.
           + right. unfold rest. apply filter_In. split; assumption.
           + left. apply in_or_app. right. unfold ready. apply filter_In. split; [assumption|].
             now rewrite E.
@@ -750,7 +790,7 @@ Proof.
   - now left.
   - tauto.
   - tauto.
-  - tauto.
+  - split; [intros e He; split; [tauto|now left]|intros e He _; exact He].
   - assumption.
   - intros y [<-|[]]. constructor.
   - intros y [<-|[]]. now left.
@@ -781,7 +821,9 @@ Lemma delete_exact_sec :
     delete succ subject manifest cfg_fixed ord st0 x = (st', Ok) /\
     (forall y, In y (blobs st') <-> In y B /\ ~ Gone y) /\
     (forall y, In y (gnodes st') <-> In y G /\ ~ Gone y) /\
-    (forall e, In e (idx st') <-> In e (idx st0) /\ ~ Gone (snd e)) /\
+    ((forall e, In e (idx st') -> ~ Gone (snd e) /\
+        (In e (idx st0) \/ exists d, e = (RDig d, d) /\ manifest d = true)) /\
+     (forall e, In e (idx st0) -> ~ Gone (snd e) -> In e (idx st'))) /\
     strays st' = strays st0 /\ autogc st' = autogc st0.
 Proof.
   unfold delete. cbn [fixF4 cfg_fixed]. unfold delete_fuel.
@@ -796,9 +838,9 @@ Proof.
   - apply (di_g _ _ _ _ _ I) in H. tauto.
   - apply (di_g _ _ _ _ _ I) in H as [_ H]. now rewrite <- HG.
   - intros [H1 H2]. apply (di_g _ _ _ _ _ I). rewrite HG. tauto.
-  - apply (di_i _ _ _ _ _ I) in H. tauto.
-  - apply (di_i _ _ _ _ _ I) in H as [_ H]. now rewrite <- HG.
-  - intros [H1 H2]. apply (di_i _ _ _ _ _ I). rewrite HG. tauto.
+  - rewrite <- HG. now apply (proj1 (di_i _ _ _ _ _ I)) in H.
+  - now apply (proj1 (di_i _ _ _ _ _ I)) in H.
+  - intros e He Hn. apply (proj2 (di_i _ _ _ _ _ I)); [assumption|]. now rewrite HG.
   - apply (di_s _ _ _ _ _ I).
   - rewrite (di_a _ _ _ _ _ I). now rewrite auto_on.
 Qed.
@@ -814,7 +856,7 @@ Proof. destruct 1; auto. Qed.
 Lemma gone_holders y : Gone y -> y <> x -> forall p, In p G -> holds p y -> Gone p.
 Proof.
   intros H Hne. destruct H as [|r m _ _ _ _ _ Hh|d _ _ _ Hall]; [congruence|exact Hh|].
-  intros p Hp [Hs _]. now apply Hall.
+  intros p Hp Hh. apply Hall; [assumption|]. now apply entries_succ.
 Qed.
 
 End Delete.
@@ -830,7 +872,7 @@ Lemma delete_plain st x ord :
   exists st',
     delete succ subject manifest cfg_fixed ord st x = (st', Ok) /\
     blobs st' = removeb x (blobs st) /\ gnodes st' = removeb x (gnodes st) /\
-    idx st' = filter (fun e => negb (Nat.eqb (snd e) x)) (idx st) /\
+    idx st' = del_idx succ manifest st x /\
     strays st' = strays st /\ autogc st' = autogc st.
 Proof.
   intros Ho Ha Hx. apply memb_In in Hx. unfold delete, delete_fuel. cbn [fixF4 cfg_fixed].
@@ -839,7 +881,8 @@ Proof.
   { destruct (ord 0 []) as [|a l] eqn:E; [reflexivity|].
     exfalso. assert (H : In a (ord 0 [])) by (rewrite E; now left).
     apply Ho in H. destruct H. }
-  rewrite E. simpl. eexists. split; [reflexivity|]. simpl. repeat split.
+  rewrite E. cbn [app dedup filter delete_loop]. eexists. split; [reflexivity|].
+  cbn [blobs gnodes idx strays autogc]. repeat split.
 Qed.
 
 (* absent target: not found *)
@@ -852,6 +895,32 @@ Proof.
   destruct (fixF4 c); [unfold delete_fuel|]; apply H.
 Qed.
 
+(* ... and what Go's delete() did before storage.Delete failed stays done: the references to
+   x are gone and x is no longer a graph node; the storage is unchanged *)
+Lemma delete_absent_state st x ord c :
+  ~ In x (blobs st) ->
+  fst (delete succ subject manifest c ord st x) =
+  {| blobs := removeb x (blobs st);
+     idx := del_idx succ manifest st x;
+     gnodes := removeb x (gnodes st);
+     strays := strays st; autogc := autogc st |}.
+Proof.
+  intro Hx. apply memb_false in Hx. unfold delete.
+  assert (H : forall f, fst (delete_loop succ subject manifest c ord (S f) 0 st [x] [x] []) =
+    {| blobs := removeb x (blobs st);
+       idx := del_idx succ manifest st x;
+       gnodes := removeb x (gnodes st);
+       strays := strays st; autogc := autogc st |}).
+  { intro f. cbn [delete_loop]. unfold delete_one. rewrite Hx. reflexivity. }
+  destruct (fixF4 c); [unfold delete_fuel|]; apply H.
+Qed.
+
+Lemma removeb_absent x l : ~ In x l -> removeb x l = l.
+Proof.
+  intro H. unfold removeb. apply filter_all_true. intros y Hy. apply negb_true_iff, Nat.eqb_neq.
+  intro E. subst. contradiction.
+Qed.
+
 (* graph nodes are stored blobs: invariant of every history *)
 Definition wf (st : state) : Prop := forall y, In y (gnodes st) -> In y (blobs st).
 
@@ -862,7 +931,7 @@ Proof.
   cbn [delete_loop]. destruct queue as [|h q]; [exact Hw|].
   unfold delete_one.
   assert (Hw' : wf {| blobs := removeb h (blobs st);
-                      idx := filter (fun e => negb (snd e =? h)) (idx st);
+                      idx := del_idx succ manifest st h;
                       gnodes := removeb h (gnodes st);
                       strays := strays st; autogc := autogc st |}).
   { intros y Hy. simpl in *. apply removeb_In in Hy as [Hy Hn]. apply removeb_In. split; auto. }
@@ -872,14 +941,20 @@ Qed.
 
 Lemma step_wf kl st o : wf st -> wf (fst (step succ subject manifest cfg_fixed kl st o)).
 Proof.
-  intro Hw. destruct o as [n|n t|t|n| |b|s|]; simpl.
+  intro Hw. destruct o as [n|n t|t|n| |b|s| |]; simpl.
+  9: { intros y Hy. cbn [gnodes blobs] in *. apply (proj1 (dedup_In _ _)) in Hy.
+       apply in_flat_map in Hy as (n & _ & Hy).
+       change (clo succ manifest cfg_fixed) with (closure succ) in Hy.
+       apply closure_spec in Hy. eapply Reach_in; eauto. }
   8: { intros y Hy. cbn [gnodes blobs] in *. apply (proj1 (dedup_In _ _)) in Hy.
        apply in_flat_map in Hy as (n & _ & Hy).
        change (clo succ manifest cfg_fixed) with (closure succ) in Hy.
        apply closure_spec in Hy. eapply Reach_in; eauto. }
   - unfold push. destruct (memb n (blobs st)); [exact Hw|]. intros y Hy. simpl in *.
     destruct Hy as [->|Hy]; [now left|]. right. apply removeb_In in Hy as [Hy _]. auto.
-  - unfold tag. destruct (memb n (blobs st)); exact Hw.
+  - unfold tag. destruct (memb n (blobs st)) eqn:E; [|exact Hw]. intros y Hy.
+    cbn [fst gnodes blobs] in *. destruct (manifest n); [|now apply Hw].
+    destruct Hy as [->|Hy]; [now apply memb_In|]. apply removeb_In in Hy as [Hy _]. now apply Hw.
   - unfold untag. destruct (lookup (RTag t) (idx st)); exact Hw.
   - unfold delete. apply delete_loop_wf. exact Hw.
   - destruct (gc_exact kl (fun _ => candidates (idx st)) st ltac:(tauto)) as (st' & Hg & Hn & Hb & _).
@@ -957,10 +1032,10 @@ Proof.
   cbn [delete_loop]. destruct queue as [|h q]; [exact Hw|].
   unfold delete_one.
   assert (Hw' : no_stale {| blobs := removeb h (blobs st);
-                            idx := filter (fun e => negb (snd e =? h)) (idx st);
+                            idx := del_idx succ manifest st h;
                             gnodes := removeb h (gnodes st);
                             strays := strays st; autogc := autogc st |}).
-  { intros t n H. simpl in H. apply filter_In in H as [H _]. now apply (Hw t n). }
+  { intros t n H. cbn [idx] in H. apply del_idx_In in H as [[H _]|(d & E & _)]; [now apply (Hw t n)|discriminate]. }
   destruct (memb h (blobs st)); [|exact Hw'].
   apply IH. exact Hw'.
 Qed.
@@ -972,7 +1047,9 @@ Qed.
 
 Lemma step_no_stale kl st o : no_stale st -> no_stale (fst (step succ subject manifest cfg_fixed kl st o)).
 Proof.
-  intro Hw. destruct o as [n|n t|t|n| |b|s|]; simpl.
+  intro Hw. destruct o as [n|n t|t|n| |b|s| |]; simpl.
+  9: { intros t m H. cbn [idx] in H. apply in_flat_map in H as ([r k] & _ & H). simpl in H.
+       destruct r; simpl in H; try contradiction. destruct H as [H|[H|[]]]; discriminate. }
   8: { intros t m H. cbn [idx] in H. apply filter_In in H as [H _]. now apply (Hw t m). }
   - unfold push. destruct (memb n (blobs st)); [exact Hw|]. intros t m H. cbn [fst idx] in H.
     destruct (manifest n); [|now apply (Hw t m)].
@@ -1010,6 +1087,111 @@ Proof.
   - intros (t & H). eauto.
 Qed.
 
+
+(* ------------------------------------------------------------------ *)
+(* histories with arbitrary iteration orders *)
+
+(* every stored blob is a node of the graph: true as long as the store is not reopened at an
+   arbitrary point (a reopened store knows only what index.json reaches) *)
+Definition full (st : state) : Prop := forall y, In y (blobs st) -> In y (gnodes st).
+
+Lemma delete_loop_full c ord : forall fuel k st queue seen pending,
+  full st -> full (fst (delete_loop succ subject manifest c ord fuel k st queue seen pending)).
+Proof.
+  induction fuel as [|f IH]; intros k st queue seen pending Hw; [exact Hw|].
+  cbn [delete_loop]. destruct queue as [|h q]; [exact Hw|].
+  unfold delete_one.
+  assert (Hw' : full {| blobs := removeb h (blobs st);
+                        idx := del_idx succ manifest st h;
+                        gnodes := removeb h (gnodes st);
+                        strays := strays st; autogc := autogc st |}).
+  { intros y Hy. simpl in *. apply removeb_In in Hy as [Hy Hn]. apply removeb_In. split; auto. }
+  destruct (memb h (blobs st)); [|exact Hw'].
+  apply IH. exact Hw'.
+Qed.
+
+(* states reachable by the repaired code; Delete and GC with ANY iteration order;
+   [any] = true also allows reopening the store at an arbitrary point *)
+Inductive Hist (kl any : bool) : state -> Prop :=
+| H_init : Hist kl any init
+| H_op st o : Hist kl any st ->
+    match o with ODelete _ | OGC | OReopen | OForeign => False | _ => True end ->
+    Hist kl any (fst (step succ subject manifest cfg_fixed kl st o))
+| H_delete st n ord : Hist kl any st -> (forall k l y, In y (ord k l) <-> In y l) ->
+    Hist kl any (fst (delete succ subject manifest cfg_fixed ord st n))
+| H_gc st ords : Hist kl any st -> (forall i n, In n (ords i) <-> In n (candidates (idx st))) ->
+    Hist kl any (fst (gc succ subject manifest cfg_fixed kl ords st))
+| H_gc_reopen st ords : Hist kl any st -> (forall i n, In n (ords i) <-> In n (candidates (idx st))) ->
+    Hist kl any (fst (step succ subject manifest cfg_fixed kl
+                       (fst (gc succ subject manifest cfg_fixed kl ords st)) OReopen))
+| H_reopen st : any = true -> Hist kl any st ->
+    Hist kl any (fst (step succ subject manifest cfg_fixed kl st OReopen))
+| H_foreign st : any = true -> Hist kl any st ->
+    Hist kl any (fst (step succ subject manifest cfg_fixed kl st OForeign)).
+
+Lemma gc_wf kl ords st : (forall i n, In n (ords i) <-> In n (candidates (idx st))) ->
+  wf (fst (gc succ subject manifest cfg_fixed kl ords st)).
+Proof.
+  intro Ho. destruct (gc_exact kl ords st Ho) as (st' & Hg & Hn & Hb & _). rewrite Hg.
+  intros y Hy. apply Hb. apply Hn in Hy. split; [|assumption]. eapply Live_in; eauto.
+Qed.
+
+Lemma gc_no_stale kl ords st : no_stale st -> no_stale (fst (gc succ subject manifest cfg_fixed kl ords st)).
+Proof.
+  intro Hw. unfold gc. destruct (gc_index succ subject manifest cfg_fixed kl ords st) as [[ix g]|] eqn:E; [|exact Hw].
+  intros t m H. simpl in H. unfold gc_index in E.
+  destruct (gc_passes _ _ _ _ _ _ _ _ _ _) as [[g' kept]|]; [|discriminate].
+  injection E as <- <-. apply in_app_or in H as [H|H].
+  - apply filter_In in H as [_ H]. discriminate.
+  - apply in_map_iff in H as (x & Hx & _). discriminate.
+Qed.
+
+Lemma hist_wf kl any st : Hist kl any st -> wf st.
+Proof.
+  induction 1 as [|st o _ IH _|st n ord _ IH _|st ords _ IH Ho|st ords _ IH Ho|st _ _ IH|st _ _ IH].
+  - intros y [].
+  - now apply step_wf.
+  - unfold delete. now apply delete_loop_wf.
+  - now apply gc_wf.
+  - apply step_wf. now apply gc_wf.
+  - now apply step_wf.
+  - now apply step_wf.
+Qed.
+
+Lemma hist_full kl st : Hist kl false st -> full st.
+Proof.
+  induction 1 as [|st o _ IH Ho|st n ord _ IH _|st ords _ IH Ho|st ords _ IH Ho|st Hf _ _|st Hf _ _]; try discriminate.
+  - intros y [].
+  - destruct o as [n|n t|t|n| |b|s| |]; try contradiction; simpl.
+    + unfold push. destruct (memb n (blobs st)); [exact IH|]. intros y Hy. simpl in *.
+      destruct (Nat.eq_dec y n) as [->|Hne]; [now left|]. right. apply removeb_In.
+      split; [|assumption]. destruct Hy as [->|Hy]; [contradiction|now apply IH].
+    + unfold tag. destruct (memb n (blobs st)); [|exact IH]. intros y Hy.
+      cbn [fst gnodes blobs] in *. destruct (manifest n); [|now apply IH].
+      destruct (Nat.eq_dec y n) as [->|Hne]; [now left|]. right. apply removeb_In. split; [now apply IH|assumption].
+    + unfold untag. destruct (lookup (RTag t) (idx st)); exact IH.
+    + exact IH.
+    + exact IH.
+  - unfold delete. now apply delete_loop_full.
+  - destruct (gc_exact kl ords st Ho) as (st' & Hg & Hn & Hb & _). rewrite Hg.
+    intros y Hy. apply Hn. now apply Hb in Hy.
+  - destruct (gc_exact kl ords st Ho) as (st' & Hg & Hn & Hb & _).
+    destruct (gc_reopen kl ords st st' Ho Hg) as (E1 & _ & _ & E4). rewrite Hg. cbn [fst] in *.
+    intros y Hy. apply E4. rewrite E1 in Hy. apply Hn. now apply Hb in Hy.
+Qed.
+
+Lemma hist_no_stale kl any st : Hist kl any st -> no_stale st.
+Proof.
+  induction 1 as [|st o _ IH _|st n ord _ IH _|st ords _ IH Ho|st ords _ IH Ho|st _ _ IH|st _ _ IH].
+  - intros t n [].
+  - now apply step_no_stale.
+  - unfold delete. now apply delete_loop_no_stale.
+  - now apply gc_no_stale.
+  - apply step_no_stale. now apply gc_no_stale.
+  - now apply step_no_stale.
+  - now apply step_no_stale.
+Qed.
+
 End Proofs.
 
 (* ================================================================== *)
@@ -1018,24 +1200,26 @@ End Proofs.
 Definition succ_w (n : nat) : list nat :=
   match n with
   | 1 => [0] | 2 => [1; 0] | 3 => [1; 2] | 4 => [2] | 5 => [0] | 6 => [1; 5] | 7 => [5; 0]
-  | 8 => [2; 0]
+  | 8 => [2; 0] | 10 => [0; 9] | 11 => [9; 0] | 12 => [2; 2]
   | _ => []
   end.
 Definition subject_w (n : nat) : option nat :=
-  match n with 2 => Some 1 | 3 => Some 1 | 6 => Some 1 | 7 => Some 5 | 8 => Some 2 | _ => None end.
-Definition manifest_w (n : nat) : bool := match n with 0 => false | _ => true end.
+  match n with 2 => Some 1 | 3 => Some 1 | 6 => Some 1 | 7 => Some 5 | 8 => Some 2 | 11 => Some 9 | 12 => Some 2
+  | _ => None end.
+Definition manifest_w (n : nat) : bool := match n with 0 | 9 => false | _ => true end.
 (* 0 blob; 1 image; 2 image with subject 1; 3 index with subject 1 listing 2;
    4 index listing 2; 5 image; 6 index with subject 1 listing 5; 7 image with subject 5;
-   8 image with subject 2 *)
+   8 image with subject 2; 9 layer; 10 image with layer 9; 11 image whose subject is the layer 9;
+   12 index with subject 2 that also lists 2 *)
 
 Lemma succ_w_lt : forall n s, In s (succ_w n) -> s < n.
 Proof.
-  intros n s. do 9 (destruct n as [|n]; [simpl; intuition lia|]). simpl. tauto.
+  intros n s. do 13 (destruct n as [|n]; [simpl; intuition lia|]). simpl. tauto.
 Qed.
 
 Lemma subj_w_succ : forall n s, subject_w n = Some s -> In s (succ_w n).
 Proof.
-  intros n s. do 9 (destruct n as [|n]; [simpl; intro H; try discriminate; injection H as <-; tauto|]).
+  intros n s. do 13 (destruct n as [|n]; [simpl; intro H; try discriminate; injection H as <-; tauto|]).
   simpl. discriminate.
 Qed.
 
@@ -1052,7 +1236,8 @@ Proof. vm_compute. reflexivity. Qed.
 
 (* F3: without the repair a tagged referrer is deleted together with its tag *)
 Definition cfg_noF3 := {| fixF1 := true; fixF3 := false; fixF4 := true; fixF13 := true;
-  fixStale := true; fixLeaf := true; skipLinked := false; fixHold := true |}.
+  fixStale := true; fixLeaf := true; skipLinked := false; fixHold := true;
+  fixSubjM := true; fixEntry := true |}.
 Lemma delete_noF3_removes_tagged :
   let st := run_w cfg_fixed [OPush 0; OPush 1; OPush 2; OTag 2 0] in
   let st' := fst (delete succ_w subject_w manifest_w cfg_noF3 ord_id st 1) in
@@ -1061,7 +1246,8 @@ Proof. vm_compute. intuition (try discriminate). Qed.
 
 (* F4: without the repair the outcome depends on the iteration order *)
 Definition cfg_noF4 := {| fixF1 := true; fixF3 := true; fixF4 := false; fixF13 := true;
-  fixStale := true; fixLeaf := true; skipLinked := false; fixHold := false |}.
+  fixStale := true; fixLeaf := true; skipLinked := false; fixHold := false;
+  fixSubjM := true; fixEntry := true |}.
 Definition ord_rev (k : nat) (l : list nat) : list nat := rev l.
 Lemma delete_noF4_order_dependent :
   let st := run_w cfg_fixed [OPush 0; OPush 1; OPush 2; OPush 3] in
@@ -1071,7 +1257,8 @@ Proof. vm_compute. split; reflexivity. Qed.
 
 (* F13: a single referrer pass keeps 7 or sweeps it depending on the order *)
 Definition cfg_noF13 := {| fixF1 := true; fixF3 := true; fixF4 := true; fixF13 := false;
-  fixStale := true; fixLeaf := true; skipLinked := false; fixHold := true |}.
+  fixStale := true; fixLeaf := true; skipLinked := false; fixHold := true;
+  fixSubjM := true; fixEntry := true |}.
 Lemma gc_noF13_order_dependent :
   let st := run_w cfg_fixed [OPush 0; OPush 1; OPush 5; OPush 6; OPush 7; OTag 1 0] in
   In 7 (blobs (fst (gc succ_w subject_w manifest_w cfg_noF13 false (fun _ => [6; 7; 5]) st))) /\
@@ -1087,7 +1274,8 @@ Qed.
 (* before the repair of Delete's referrer rule: the referrer 2 of the deleted manifest 1 is
    removed although the surviving tagged index 4 lists it (repaired: 2 stays) *)
 Definition cfg_noHold := {| fixF1 := true; fixF3 := true; fixF4 := true; fixF13 := true;
-  fixStale := true; fixLeaf := true; skipLinked := false; fixHold := false |}.
+  fixStale := true; fixLeaf := true; skipLinked := false; fixHold := false;
+  fixSubjM := true; fixEntry := true |}.
 Lemma delete_referrer_still_linked :
   let st := run_w cfg_fixed [OPush 0; OPush 1; OPush 2; OPush 4; OTag 4 0] in
   let st' := fst (delete succ_w subject_w manifest_w cfg_noHold ord_id st 1) in
@@ -1100,7 +1288,8 @@ Proof. vm_compute. intuition discriminate. Qed.
 (* pre-repair resolver.Memory.Tag: tag 0 is moved from 5 to 1; deleting the index 6 that
    lists 5 leaves 5 behind because its tag set still holds the moved reference *)
 Definition cfg_noStale := {| fixF1 := true; fixF3 := true; fixF4 := true; fixF13 := true;
-  fixStale := false; fixLeaf := true; skipLinked := false; fixHold := true |}.
+  fixStale := false; fixLeaf := true; skipLinked := false; fixHold := true;
+  fixSubjM := true; fixEntry := true |}.
 Definition stale_ops := [OPush 0; OPush 5; OPush 6; OPush 1; OTag 5 0; OTag 1 0].
 Lemma delete_stale_tag_leaves_garbage :
   let st := run_w cfg_noStale stale_ops in
@@ -1120,7 +1309,8 @@ Qed.
 (* pre-repair Delete: after GC the never-stored config 0 of the tagged image 1 is a graph
    node; deleting 1 queues it and aborts with not found *)
 Definition cfg_noLeaf := {| fixF1 := true; fixF3 := true; fixF4 := true; fixF13 := true;
-  fixStale := true; fixLeaf := false; skipLinked := false; fixHold := true |}.
+  fixStale := true; fixLeaf := false; skipLinked := false; fixHold := true;
+  fixSubjM := true; fixEntry := true |}.
 Definition leaf_ops := [OPush 1; OTag 1 0; OGC].
 Lemma delete_absent_leaf_aborts :
   let st := run_w cfg_noLeaf leaf_ops in
@@ -1133,13 +1323,39 @@ Proof. vm_compute. intuition discriminate. Qed.
    predecessors are already queued -- breaks referrer chains: 2 (referrer of 1) is held by
    its own referrer 8, so deleting 1 leaves 2 and 8 behind as garbage nobody else links to *)
 Definition cfg_skipLinked := {| fixF1 := true; fixF3 := true; fixF4 := true; fixF13 := true;
-  fixStale := true; fixLeaf := true; skipLinked := true; fixHold := false |}.
+  fixStale := true; fixLeaf := true; skipLinked := true; fixHold := false;
+  fixSubjM := true; fixEntry := true |}.
 Lemma delete_skip_linked_leaves_chain :
   let st := run_w cfg_fixed [OPush 0; OPush 1; OPush 2; OPush 8] in
   blobs (fst (delete succ_w subject_w manifest_w cfg_skipLinked ord_id st 1)) = [8; 2; 0] /\
   blobs (fst (delete succ_w subject_w manifest_w cfg_fixed ord_id st 1)) = [] /\
   is_tagged st 2 = false /\ is_tagged st 8 = false.
 Proof. vm_compute. repeat split. Qed.
+
+(* audit F-A, before the repair of gcIndex: the layer 9 is never pushed; IndexAll records it
+   as a node of the rebuilt graph while indexing the tagged image 10, and 11, whose subject is
+   that layer, is kept by GC as garbage (repaired: swept) *)
+Definition cfg_noSubjM := {| fixF1 := true; fixF3 := true; fixF4 := true; fixF13 := true;
+  fixStale := true; fixLeaf := false; skipLinked := false; fixHold := true;
+  fixSubjM := false; fixEntry := true |}.
+Definition subjm_ops := [OPush 0; OPush 10; OTag 10 0; OPush 11].
+Lemma gc_blob_subject_keeps_garbage :
+  blobs (fst (step succ_w subject_w manifest_w cfg_noSubjM false (run_w cfg_noSubjM subjm_ops) OGC)) = [11; 10; 0] /\
+  blobs (fst (step succ_w subject_w manifest_w cfg_fixed false (run_w cfg_fixed subjm_ops) OGC)) = [10; 0] /\
+  manifest_w 9 = false /\ subject_w 11 = Some 9.
+Proof. vm_compute. repeat split. Qed.
+
+(* audit F-C, before the repair of heldBySurvivor: the tagged index 12 names 2 as its subject
+   and also lists it; deleting 1 removed its referrer 2 (repaired: 12 holds 2) *)
+Definition cfg_noEntry := {| fixF1 := true; fixF3 := true; fixF4 := true; fixF13 := true;
+  fixStale := true; fixLeaf := true; skipLinked := false; fixHold := true;
+  fixSubjM := true; fixEntry := false |}.
+Lemma delete_subject_and_entry :
+  let st := run_w cfg_fixed [OPush 0; OPush 1; OPush 2; OPush 12; OTag 12 0] in
+  blobs (fst (delete succ_w subject_w manifest_w cfg_noEntry ord_id st 1)) = [12] /\
+  blobs (fst (delete succ_w subject_w manifest_w cfg_fixed ord_id st 1)) = [12; 2; 0] /\
+  In 2 (entries succ_w subject_w 12).
+Proof. vm_compute. repeat split. now left. Qed.
 
 (* the hypotheses of the theorems are satisfiable on a non-trivial history *)
 Lemma example_gc :
@@ -1171,10 +1387,10 @@ Lemma gc_exact_final : forall succ subject manifest,
   forall kl ords st, same_elements ords (candidates (idx st)) ->
   exists st',
     gc succ subject manifest cfg_fixed kl ords st = (st', Ok) /\
-    (forall x, In x (blobs st') <-> In x (blobs st) /\ Live succ subject st x) /\
-    (forall x, In x (gnodes st') <-> Live succ subject st x) /\
+    (forall x, In x (blobs st') <-> In x (blobs st) /\ Live succ subject manifest st x) /\
+    (forall x, In x (gnodes st') <-> Live succ subject manifest st x) /\
     (forall t n, In (RTag t, n) (idx st') <-> In (RTag t, n) (idx st)) /\
-    (forall x p, In p (preds succ (gnodes st') x) <-> Live succ subject st p /\ In x (succ p)) /\
+    (forall x p, In p (preds succ (gnodes st') x) <-> Live succ subject manifest st p /\ In x (succ p)) /\
     (forall s, In s (strays st') <-> In s (strays st) /\ (s_known s && s_valid s = false)) /\
     autogc st' = autogc st.
 Proof.
@@ -1202,20 +1418,31 @@ Lemma delete_exact_final : forall succ subject manifest,
     delete succ subject manifest cfg_fixed ord st x = (st', Ok) /\
     (forall y, In y (blobs st') <-> In y (blobs st) /\ ~ Gone succ subject manifest st x y) /\
     (forall y, In y (gnodes st') <-> In y (gnodes st) /\ ~ Gone succ subject manifest st x y) /\
-    (forall r n, In (r, n) (idx st') <-> In (r, n) (idx st) /\ ~ Gone succ subject manifest st x n) /\
-    (forall t n, In (RTag t, n) (idx st) -> n <> x -> In (RTag t, n) (idx st')) /\
+    (forall r n, In (r, n) (idx st') ->
+       ~ Gone succ subject manifest st x n /\ (In (r, n) (idx st) \/ (r = RDig n /\ manifest n = true))) /\
+    (forall r n, In (r, n) (idx st) -> ~ Gone succ subject manifest st x n -> In (r, n) (idx st')) /\
+    (forall t n, In (RTag t, n) (idx st') <-> In (RTag t, n) (idx st) /\ n <> x) /\
     (forall r, ~ In (r, x) (idx st')) /\
     strays st' = strays st /\ autogc st' = autogc st.
 Proof.
   intros succ subject manifest H1 H2 st x Hw Ha Hx ord Ho.
   destruct (delete_exact_sec succ subject manifest H1 H2 st x Hw Ha Hx ord Ho)
-    as (st' & Hd & A & B & C & D & E).
-  exists st'. split; [exact Hd|]. split; [exact A|]. split; [exact B|].
-  split; [intros r n; exact (C (r, n))|]. split; [|split; [|split; [exact D|exact E]]].
-  - intros t n Ht Hn. apply (C (RTag t, n)). split; [assumption|]. simpl. intro HG.
+    as (st' & Hd & A & B & [C1 C2] & D & E).
+  assert (Htag : forall t n, In (RTag t, n) (idx st) -> n <> x -> ~ Gone succ subject manifest st x n).
+  { intros t n Ht Hn HG.
     pose proof (gone_untagged succ subject manifest st x n HG Hn) as Hf.
-    assert (Ht' : is_tagged st n = true) by (apply is_tagged_spec; eauto). congruence.
-  - intros r H. apply (C (r, x)) in H as [_ H]. apply H. constructor.
+    assert (Ht' : is_tagged st n = true) by (apply is_tagged_spec; eauto). congruence. }
+  exists st'. split; [exact Hd|]. split; [exact A|]. split; [exact B|].
+  split; [|split; [|split; [|split; [|split; [exact D|exact E]]]]].
+  - intros r n H. destruct (C1 (r, n) H) as [Hg [Ho'|(d & Ed & Hm)]]; (split; [exact Hg|]).
+    + now left.
+    + right. injection Ed as -> ->. split; [reflexivity|assumption].
+  - intros r n H Hg. exact (C2 (r, n) H Hg).
+  - intros t n. split.
+    + intro H. destruct (C1 (RTag t, n) H) as [Hg [Ho'|(d & Ed & _)]]; [|discriminate].
+      split; [assumption|]. intro E'. subst. apply Hg. constructor.
+    + intros [H Hn]. apply (C2 (RTag t, n) H). simpl. eapply Htag; eauto.
+  - intros r H. destruct (C1 (r, x) H) as [Hg _]. apply Hg. constructor.
 Qed.
 
 Lemma delete_terminates_final : forall succ subject manifest,
@@ -1234,13 +1461,13 @@ Qed.
 Lemma delete_never_final : forall succ subject manifest st x y,
   Gone succ subject manifest st x y -> y <> x ->
   is_tagged st y = false /\ In y (gnodes st) /\
-  (forall p, In p (gnodes st) -> In y (succ p) -> subject p <> Some y ->
+  (forall p, In p (gnodes st) -> In y (entries succ subject p) ->
              Gone succ subject manifest st x p).
 Proof.
   intros succ subject manifest st x y HG Hn. split; [|split].
   - eapply gone_untagged; eauto.
   - destruct (gone_in_store _ _ _ _ _ _ HG); [contradiction|assumption].
-  - intros p Hp Hs Hne. eapply gone_holders; eauto. split; assumption.
+  - intros p Hp Hs. eapply gone_holders; eauto.
 Qed.
 
 Lemma delete_plain_final : forall succ subject manifest st x ord,
@@ -1248,7 +1475,7 @@ Lemma delete_plain_final : forall succ subject manifest st x ord,
   exists st',
     delete succ subject manifest cfg_fixed ord st x = (st', Ok) /\
     blobs st' = removeb x (blobs st) /\ gnodes st' = removeb x (gnodes st) /\
-    idx st' = filter (fun e => negb (Nat.eqb (snd e) x)) (idx st) /\
+    idx st' = del_idx succ manifest st x /\
     strays st' = strays st /\ autogc st' = autogc st.
 Proof. intros. now apply delete_plain. Qed.
 
@@ -1278,3 +1505,29 @@ Lemma gc_reopen_final : forall succ subject manifest,
   blobs st2 = blobs st' /\ idx st2 = idx st' /\ strays st2 = strays st' /\
   (forall x, In x (gnodes st2) <-> In x (gnodes st')).
 Proof. intros succ subject manifest H1 H2. exact (gc_reopen succ subject manifest H1 H2). Qed.
+
+(* histories with arbitrary orders: every reachable state is well-formed and free of stale
+   tag-set entries; without reopening at arbitrary points every stored blob is a graph node *)
+Lemma hist_final : forall succ subject manifest,
+  acyclic succ -> subject_listed succ subject ->
+  forall kl any st, Hist succ subject manifest kl any st ->
+  wf st /\ (forall n, is_tagged st n = true <-> exists t, In (RTag t, n) (idx st)) /\
+  (any = false -> forall y, In y (blobs st) -> In y (gnodes st)).
+Proof.
+  intros succ subject manifest H1 H2 kl any st H. split; [|split].
+  - eapply hist_wf; eauto.
+  - intro n. apply no_stale_tagged. eapply hist_no_stale; eauto.
+  - intros ->. eapply hist_full; eauto.
+Qed.
+
+Lemma delete_absent_final : forall succ subject manifest st x ord c,
+  ~ In x (blobs st) ->
+  snd (delete succ subject manifest c ord st x) = ENotFound /\
+  blobs (fst (delete succ subject manifest c ord st x)) = blobs st /\
+  gnodes (fst (delete succ subject manifest c ord st x)) = removeb x (gnodes st) /\
+  idx (fst (delete succ subject manifest c ord st x)) = del_idx succ manifest st x.
+Proof.
+  intros succ subject manifest st x ord c Hx. split; [now apply delete_absent|].
+  rewrite (delete_absent_state succ subject manifest st x ord c Hx). cbn [blobs gnodes idx].
+  split; [now apply removeb_absent|split; reflexivity].
+Qed.
